@@ -503,7 +503,10 @@ impl Scheduler {
         let mut job_edges: Vec<_> = self
             .next_blocks
             .iter()
-            .flat_map(|(&from, next)| next.iter().map(move |&(to, _, fragile)| (from, to, fragile)))
+            .flat_map(|(&from, next)| {
+                next.iter()
+                    .map(move |&(to, _, fragile)| (from, to, fragile))
+            })
             .collect();
         job_edges.sort();
         let (links, demux_addresses) = self.network.verif_dump();
